@@ -26,7 +26,7 @@ MAX_PATHS = 20000
 F = Fraction
 
 MUTATORS = ["knot_insert", "knot_insert2", "knot_remove", "knot_remove_real", "knot_clean", "degree_increase", "degree_decrease",
-            "degree_setter", "clean", "knotvector_setter", "ctrlpoints_setter", "weights_setter", "update", "apply", "apply_bad",
+            "degree_setter", "clean", "knotvector_setter", "ctrlpoints_setter", "weights_setter", "update", "apply", "apply_bad", "insert_typeerror",
             "fit_points_bad", "fit_curve_bad", "fit_points", "fit_curve"]
 PURE = ["eval", "arith", "eq", "split", "fraction", "copy", "derivate", "integrate", "fit_source", "shared"]
 
@@ -77,6 +77,23 @@ def configs(tier, seed):
                 for b in seqs:
                     cfgs.append(dict(name=f"vec{k} {a} then {b}", kind="two", ops=[a, b], rat=False, **base))
     return cfgs
+
+
+class ExactPoint:
+    """a user-defined exact point: point + point and (int | Fraction) * point; a float factor is refused"""
+
+    def __init__(self, x, y):
+        self.x, self.y = x, y
+
+    def __add__(self, o):
+        if not isinstance(o, ExactPoint):
+            return NotImplemented
+        return ExactPoint(self.x + o.x, self.y + o.y)
+
+    def __rmul__(self, k):
+        if isinstance(k, (float, np.floating)):
+            raise TypeError("ExactPoint cannot be scaled by a float")
+        return ExactPoint(k * self.x, k * self.y)
 
 
 def consistent(env, c, tag):
@@ -174,6 +191,16 @@ def run_op(env, c, op, kv, tag, concrete=False):
         elif op == "apply_bad":
             newv = sorted(list(kv.U) + [(lo + hi) / 2]) if (lo + hi) / 2 not in vals else sorted(list(kv.U) + [(lo + 2 * hi) / 3])
             c.apply(newv, np.eye(n, dtype=object))                                # matrix of the wrong shape
+        elif op == "insert_typeerror":
+            # a user point type that refuses float factors, on a curve with float weights: scaling the points by the weights
+            # raises TypeError in the middle of apply()
+            bad = Curve(list(kv.U), [ExactPoint(F(i), F(2 * i + 1)) for i in range(n)], [float(w) for w in conc_weights(n, 5)])
+            sbad = kmode.snapshot(bad)
+            try:
+                bad.knot_insert([(lo + hi) / 2 if (lo + hi) / 2 not in vals else (lo + 2 * hi) / 3])
+            except TypeError:
+                kmode.unchanged(env, bad, sbad, "knot_insert that raised TypeError")
+                raise
         elif op == "fit_points_bad":
             c.fit_points([F(1)] * (n - 1))
         elif op == "fit_curve_bad":
